@@ -6,6 +6,9 @@ S->I : TLC exports every molecule of the exhaustive instance with its projection
        one tagged link per interaction) and a residue-graph JSON, runs the real `polyply gen_params` command line, requires the file,
        reads it back with Topology.from_gmx_topfile and MetaMolecule.from_itp and compares with TLC's projection; a stratified
        subset of the files goes through gen_coords.
+Histories: spec/ItpRoundTripHist.tla keeps the file system as state (fs: path -> lines); TLC exports every behaviour of gen(path, molecule) /
+       read(path) operations; each is executed in ONE process in one directory (S->I) and seeded longer histories over 2-3 paths are
+       recorded and validated by ItpRoundTripHistTrace.tla (I->S): a read returns Read(current content of the path), nothing else.
 I->S : seeded random polymers (5-8 residues), the C02 generator's cases, the repository's own gen_params command lines (library tests,
        test inputs) and library homopolymers run through the same command line; per run one record (molecule in memory when the
        writer is called, written text as abstract lines, both read-backs, requested graph, warnings) validated by
@@ -389,6 +392,240 @@ def binding_demo(ck, recs, known):
     ck.extra["binding_demo"] = "3 corrupted records (parameter added in the read-back; #endif deleted from the text; residue edge deleted) rejected at stages 3, 2, 5; the intact record accepted"
 
 
+# ------------------------------------------------------------------ in-process histories (the file system is state)
+
+def _hist_chunk(arg):
+    """S->I: histories exported by ItpRoundTripHist (gen = write molecule m to path p with the real command line, read = read a topology
+    that includes p); every history runs in this one process, in one directory; a read must return the molecule TLC says the path holds"""
+    path, = arg
+    doc = json.loads(Path(path).read_text())
+    mols = doc["mols"]
+    res = []
+    for hid, hist in doc["hists"]:
+        bad = None
+        with tempfile.TemporaryDirectory(prefix="verif_c11h_", dir="/var/tmp") as wd:
+            for k, op in enumerate(hist):
+                cs = mols[op["m"] - 1]
+                itp = Path(wd) / ("%s.itp" % op["path"])
+                if op["op"] == "gen":
+                    sub = Path(wd) / ("in_%d" % k)
+                    sub.mkdir()
+                    ff, seq = iu.render_case(cs["mol"], (hid + k) % 2)
+                    (sub / "in.ff").write_text(ff)
+                    (sub / "seq.json").write_text(seq)
+                    rec = iu.run_command(["polyply", "gen_params", "-f", str(sub / "in.ff"), "-seqf", str(sub / "seq.json"), "-name", cs["mol"]["name"],
+                                          "-o", itp.name], wd, keep_existing=True)
+                    if rec["exception"] or not rec["written"]:
+                        bad = (k, "gen_params did not write %s (%s)" % (itp.name, rec["exception"] or "the file at the path was not replaced"))
+                        break
+                else:
+                    rb = iu.read_back(itp, cs["mol"]["name"], wd)
+                    if rb.get("read_error"):
+                        bad = (k, "the file cannot be read back: %s" % rb["read_error"])
+                        break
+                    d = None
+                    for which in ("read", "read2"):
+                        d = _mol_diff(cs["exp"], rb[which])
+                        if d:
+                            d = "%s: %s" % ("Topology.from_gmx_topfile" if which == "read" else "MetaMolecule.from_itp", d)
+                            break
+                    if not d and not cs["missing"]:
+                        for which in ("rg", "rg2"):
+                            if _graph(rb[which]) != _graph(cs["rg"]):
+                                d = "the residue graph recovered from the file is %s, requested %s" % (_graph(rb[which]), _graph(cs["rg"]))
+                                break
+                    if d:
+                        bad = (k, "the topology including %s was read after molecule %d had been written there, but the reader returned something else: %s" % (
+                            itp.name, op["m"], d))
+                        break
+        res.append((hid, bad))
+    return res
+
+
+def _rewrites(hist):
+    """a read of a path that was read before and rewritten with another molecule since"""
+    seen = {}
+    for op in hist:
+        if op["op"] == "read":
+            if op["path"] in seen and seen[op["path"]] != op["m"]:
+                return True
+            seen[op["path"]] = op["m"]
+    return False
+
+
+def history_replay(ck, res, tier, rng):
+    mols = res.tagged("HMOLS")
+    hists = res.tagged("HIST")
+    if not mols or len(hists) < 500:
+        raise c.MachineryError("ItpRoundTripHist exported %d molecule tables / %d histories" % (len(mols), len(hists)))
+    mols = mols[0]
+    if not all(m["law"] and m["rglaw"] for m in mols):
+        raise c.MachineryError("a molecule of the history instance does not satisfy the laws")
+    key = {json.dumps(h, sort_keys=True): h for h in hists}
+    hists = [key[k] for k in sorted(key)]
+    rew = [h for h in hists if _rewrites(h)]
+    rest = [h for h in hists if not _rewrites(h)]
+    ck.extra["histories_exported"] = len(hists)
+    ck.extra["histories_with_reread_after_rewrite"] = len(rew)
+    nrew, nrest = (350, 150) if tier == "quick" else (3000, 1000)
+    rest = rng.sample(rest, min(len(rest), nrest))
+    rew = rng.sample(rew, min(len(rew), nrew))
+    todo = list(enumerate(rew + rest))
+    if len(rew) < 50 and not ck.violations:
+        raise c.MachineryError("too few histories read a path again after it was rewritten (%d)" % len(rew))
+    wdir = c.workdir(PROP, "hist_export")
+    parts = []
+    for k, ch in enumerate(c.chunks(todo, c.NPROC * 3)):
+        f = wdir / ("hist_%d.json" % k)
+        f.write_text(json.dumps({"mols": mols, "hists": ch}))
+        parts.append((str(f),))
+    allh = dict(todo)
+    for part in c.pmap(_hist_chunk, parts):
+        for hid, bad in part:
+            ck.replayed += 1
+            h = allh[hid]
+            ck.count("hist:" + json.dumps(h, sort_keys=True))
+            for op in h:
+                ck.actions["history:" + op["op"]] = ck.actions.get("history:" + op["op"], 0) + 1
+            if bad:
+                k, what = bad
+                ck.violation({"kind": "history", "mols": mols, "history": h, "step": k},
+                             what="in-process history %s: operation %d: %s" % (" ".join("%s(%s,%d)" % (o["op"], o["path"], o["m"]) for o in h), k + 1, what))
+    ck.extra["histories_replayed"] = len(todo)
+    ck.sample({"history (S->I)": rew[0], "molecules by index": [{"atoms": len(m["mol"]["atoms"]), "residues": len(m["mol"]["rnodes"]),
+                                                                   "interactions": [(x["sec"], x["gk"]) for x in m["mol"]["inter"]]} for m in mols]})
+
+
+LIBSEQ = [("martini3", "PEO"), ("martini3", "PS"), ("martini3", "PE"), ("martini2", "PS"), ("ibi_cgm3", "PTMA"), ("martini3", "P3HT")]
+
+
+def _hist_trace_one(seed):
+    """I->S: one seeded history in this one process: 8-12 operations on 2-3 output paths, molecules = random polymers / library homopolymers
+    of varying length, all written as moleculetype 'poly'"""
+    rng = random.Random(seed)
+    paths = ["P1", "P2", "P3"][:rng.choice([2, 2, 3])]
+    events, have = [], set()
+    with tempfile.TemporaryDirectory(prefix="verif_c11h_", dir="/var/tmp") as wd:
+        for k in range(rng.randint(8, 12)):
+            p = rng.choice(paths)
+            itp = Path(wd) / ("%s.itp" % p)
+            if p not in have or rng.random() < 0.45:
+                if rng.random() < 0.7:
+                    sub = Path(wd) / ("in_%d" % k)
+                    sub.mkdir()
+                    ff, seq, _ = iu.random_polymer(rng, exotic=False)
+                    (sub / "in.ff").write_text(ff)
+                    (sub / "seq.json").write_text(seq)
+                    argv = ["polyply", "gen_params", "-f", str(sub / "in.ff"), "-seqf", str(sub / "seq.json"), "-name", "poly", "-o", itp.name]
+                else:
+                    lib, blk = rng.choice(LIBSEQ)
+                    argv = ["polyply", "gen_params", "-lib", lib, "-seq", "%s:%d" % (blk, rng.randint(2, 6)), "-name", "poly", "-o", itp.name]
+                rec = iu.run_command(argv, wd, keep_existing=True)
+                if not rec["accepted"]:
+                    continue
+                built = rec["built"] if isinstance(rec["built"], dict) and "error" not in rec["built"] else {"name": "", "nrexcl": "", "atoms": [], "inter": []}
+                events.append({"op": "gen", "path": p, "written": bool(rec["written"] and not rec["exception"]), "built": built,
+                               "lines": iu.tokenise(rec["text"]), "argv": argv[:2] + [a for a in argv[2:] if not a.startswith("/")], "exception": rec["exception"]})
+                if rec["written"]:
+                    have.add(p)
+            else:
+                rb = iu.read_back(itp, "poly", wd)
+                empty = {"name": "", "nrexcl": "", "atoms": [], "inter": []}
+                events.append({"op": "read", "path": p, "now": iu.tokenise(itp.read_text()), "readok": "read_error" not in rb,
+                               "read": rb.get("read", empty), "read2": rb.get("read2", empty), "read_error": rb.get("read_error", "")})
+    return seed, events
+
+
+def _validate_hist_file(arg):
+    path, = arg
+    res = c.tlc("ItpRoundTripHistTrace", "Itp_hist_trace.cfg", workers=1, env={"TRACE_FILE": path}, check=False, timeout=3000)
+    return {"rc": res.rc, "rejected": res.tagged("REJECTED"), "summary": res.summary(), "distinct": res.distinct, "generated": res.generated, "tail": res.out[-1500:]}
+
+
+def validate_histories(ck, traces, name, count=True):
+    wd = c.workdir(PROP, name)
+    batches = [b for b in c.chunks(list(range(len(traces))), max(1, min(c.NPROC, len(traces) // 12 + 1))) if b]
+    files = []
+    for k, b in enumerate(batches):
+        f = wd / ("hist_traces_%d.json" % k)
+        f.write_text(json.dumps({"traces": [traces[i] for i in b]}))
+        files.append((str(f),))
+    from concurrent.futures import ThreadPoolExecutor
+    with ThreadPoolExecutor(len(files)) as ex:
+        outs = list(ex.map(_validate_hist_file, files))
+    rejected = {}
+    for b, out in zip(batches, outs):
+        if out["rc"] != 0 and not out["rejected"]:
+            raise c.MachineryError("ItpRoundTripHistTrace failed: %s" % out["tail"])
+        for r in out["rejected"]:
+            for t, m in r:
+                rejected[b[int(t) - 1]] = int(m)
+        if count:
+            ck.tlc_runs.append(out["summary"])
+            ck.states += out["distinct"]
+            ck.transitions += out["generated"]
+    return rejected
+
+
+def history_traces(ck, tier, sd):
+    n = 60 if tier == "quick" else 400
+    outs = c.pmap(_hist_trace_one, [sd * 100000 + 70000 + k for k in range(n)])
+    traces = [ev for _, ev in outs if ev]
+    seeds = [s for s, ev in outs if ev]
+    rejected = validate_histories(ck, traces, "hist_traces")
+    rereads = 0
+    for i, tr in enumerate(traces):
+        gens, readat = {}, {}
+        for e in tr:
+            if e["op"] == "gen":
+                gens[e["path"]] = gens.get(e["path"], 0) + 1
+            else:
+                if e["path"] in readat and readat[e["path"]] != gens.get(e["path"], 0):
+                    rereads += 1            # the path was read before and has been rewritten since
+                readat[e["path"]] = gens.get(e["path"], 0)
+        if i in rejected:
+            k = rejected[i]
+            e = tr[k] if k < len(tr) else {}
+            ck.violation({"kind": "history trace", "seed": seeds[i], "trace": tr[:k + 1], "matched": k},
+                         what="in-process history (seed %d) rejected at operation %d (%s %s): %s" % (
+                             seeds[i], k + 1, e.get("op"), e.get("path"),
+                             (e.get("exception") or "the file was not (re)written, or the text does not read as the molecule built") if e.get("op") == "gen"
+                             else (e.get("read_error") or "the reader did not return what the file at the path holds at that moment")))
+        else:
+            ck.traces += 1
+            ck.nontrivial.add("histtrace:%d" % seeds[i])
+        ck.count(n=len(tr))
+    ck.extra["history_traces"] = len(traces)
+    ck.extra["history_trace_rereads_after_rewrite"] = rereads
+    if rereads < 20 and not ck.violations:
+        raise c.MachineryError("the recorded histories hardly ever read a path again after rewriting it (%d)" % rereads)
+    # binding demonstration: a read that returns what the path held BEFORE the last write must be rejected
+    demo = None
+    for i, tr in enumerate(traces):
+        if i in rejected:
+            continue
+        last = {}
+        for k, e in enumerate(tr):
+            if e["op"] == "read":
+                if e["path"] in last and json.dumps(last[e["path"]]["read"]) != json.dumps(e["read"]):
+                    demo = json.loads(json.dumps(tr))
+                    demo[k]["read"], demo[k]["read2"] = last[e["path"]]["read"], last[e["path"]]["read2"]
+                    want = k
+                    break
+                last[e["path"]] = e
+        if demo:
+            break
+    if demo is None:
+        ck.require(False, "history binding demonstration: no trace reads a path twice with different content")
+        return
+    rej = validate_histories(ck, [demo], "hist_binding", count=False)
+    if rej != {0: want}:
+        raise c.MachineryError("history binding demonstration failed: a stale read gave %s, expected rejection at event %d" % (rej, want))
+    ck.extra["history_binding_demo"] = "a read event replaced by the (stale) result of the previous read of the same path was rejected at that event"
+    ck.sample({"history trace (I->S)": [{"op": e["op"], "path": e["path"], "atoms": len((e.get("built") or e.get("read"))["atoms"]),
+                                          "command": e.get("argv")} for e in traces[0]]})
+
+
 # ------------------------------------------------------------------ entry points
 
 def model_jobs(tier):
@@ -398,6 +635,8 @@ def model_jobs(tier):
             ("free", "Itp_Dev" if tier == "quick" else "Itp_Quick", "Itp_free.cfg", {"workers": 3 if tier == "quick" else 6, "timeout": 3000, "coverage": True})]
     for d in DEVS:
         jobs.append(("dev:" + d, "Itp_Dev", "Itp_dev_%s.cfg" % d, {"workers": 1, "check": False, "dfs": True}))
+    jobs.append(("hist:dev:readerCaches", "ItpRoundTripHist", "Itp_hist_dev_readerCaches.cfg", {"workers": 1, "check": False}))
+    jobs.append(("hist:dev:writerAppends", "ItpRoundTripHist", "Itp_hist_dev_writerAppends.cfg", {"workers": 1, "check": False}))
     jobs.append(("find:mass", "Itp_MassOnly", "Itp_find_massonly.cfg", {"workers": 1, "check": False}))
     jobs.append(("find:edge", "Itp_Unbacked", "Itp_find_unbacked.cfg", {"workers": 1, "check": False}))
     jobs.append(("find:arz", "Itp_Arz", "Itp_find_arz.cfg", {"workers": 1, "check": False}))
@@ -437,8 +676,11 @@ def run(tier):
     th = threading.Thread(target=background)
     th.start()
     try:
-        ex, exf = c.tlc_many([("Itp_Quick" if tier == "quick" else "Itp_Full", "Itp_export.cfg", {"workers": 3, "timeout": 3000}),
-                              ("Itp_Find", "Itp_export_find.cfg", {"workers": 1})], workers_each=None)
+        ex, exf, exh = c.tlc_many([("Itp_Quick" if tier == "quick" else "Itp_Full", "Itp_export.cfg", {"workers": 3, "timeout": 3000}),
+                                   ("Itp_Find", "Itp_export_find.cfg", {"workers": 1}),
+                                   ("ItpRoundTripHist", "Itp_hist_deep.cfg", {"workers": 3, "timeout": 3000})],
+                                  workers_each=None)
+        ck.model_must_hold(exh, "ReadIsCurrent / FsHoldsWrite / OnlyWritesChangeFiles on all histories of gen/read operations over two paths")
         ck.model_must_hold(ex, "RoundTrip / ResGraphLaw for the declarative Write and Read on every molecule of the instance")
         ck.add_tlc(exf)
         cases = ex.cases()
@@ -506,6 +748,12 @@ def run(tier):
         ck.extra["gen_coords_runs"] = len(pick) - nov
         ck.extra["gen_coords_no_verdict"] = nov
         ck.require(len(pick) >= 20 and nov <= len(pick) // 5, "gen_coords subset too small or too many runs without verdict (%d of %d)" % (nov, len(pick)))
+        # ---- 3b. in-process histories
+        ck.stage("S->I: in-process histories (write to the same paths again and again, read in between)")
+        history_replay(ck, exh, tier, rng)
+        exh.out = ""
+        ck.stage("I->S: seeded in-process histories validated by ItpRoundTripHistTrace")
+        history_traces(ck, tier, sd)
         # ---- 4. I->S
         ck.stage("I->S: real runs recorded and validated by ItpRoundTripTrace")
         recs = trace_stage(ck, tier, sd, known, extra_recs)
@@ -528,6 +776,8 @@ def run(tier):
         raise c.MachineryError("actions never taken in the model (vacuous): %s" % idle)
     for d in DEVS:
         ck.model_must_refute(results["dev:" + d], "RoundTripI", "deviation %s" % d)
+    ck.model_must_refute(results["hist:dev:readerCaches"], "ReadIsCurrent", "the reader caches included files by path for the life of the process")
+    ck.model_must_refute(results["hist:dev:writerAppends"], "ReadIsCurrent", "the writer appends to an existing output file")
     ck.model_must_refute(results["find:mass"], "LawsAtStart", "an atom with a mass but no charge (finding %s)" % SIG_MASS)
     ck.model_must_refute(results["find:edge"], "LawsAtStart", "a linked residue pair without bond or constraint (finding %s)" % SIG_EDGE)
     ck.model_must_refute(results["find:arz"], "LawsAtStart", "angle_restraints_z listed with the higher atom first (finding %s)" % SIG_ARZ)
@@ -546,6 +796,17 @@ def replay(path):
         status, what = judge(case["case"], rec)
         print("replayed:", status, what)
         return 1 if status == "violation" else 0
+    if case["kind"] == "history":
+        f = Path(tempfile.mkdtemp(prefix="verif_c11h_", dir="/var/tmp")) / "h.json"
+        f.write_text(json.dumps({"mols": case["mols"], "hists": [(0, case["history"])]}))
+        (hid, bad), = _hist_chunk((str(f),))
+        print("replayed:", "still failing at operation %d: %s" % (bad[0] + 1, bad[1]) if bad else "no violation")
+        return 1 if bad else 0
+    if case["kind"] == "history trace":
+        seed, tr = _hist_trace_one(case["seed"])
+        rej = validate_histories(c.Check(PROP, "quick"), [tr], "replay", count=False)
+        print("replayed:", "still rejected at operation %d" % (rej[0] + 1) if rej else "accepted now")
+        return 1 if rej else 0
     if case["kind"] == "gen_coords":
         idx, status, what = _gc_one((case["variant"], case["case"], 1))
         print("replayed:", status, what)
